@@ -238,6 +238,14 @@ func c06Valid() []string {
 			add("select * where "+a+" & "+b, "select * where "+a+" | "+b, "select count(1) where ("+a+" & "+b+") | key = 'z'", "delete where "+a+" & "+b)
 		}
 	}
+	// patterns that do not compile (and a few unusual ones that do), constant and
+	// taken from the data: every evaluation, the first as well as a repeated
+	// one, ends in an error value
+	for _, pat := range []string{"(", ")", "[", "a[", "*", "+", "?", "a{2,1}", "\\", "(?P<n", "[z-a]", "a**", "(?i", "\\p{Foo}", "", "^$", "(a|", "a{1001}", "\\8", "[[:nope:]]", "(?=a)"} {
+		add("select * where key ~= '"+pat+"'", "select key, value ~= '"+pat+"' as m where true", "select * where !(value ~= '"+pat+"') | key = 'zz'", "select count(1) where key ~= '"+pat+"'",
+			"select * where key ~= '"+pat+"' & value ~= '"+pat+"'", "select key where key ^= 'k' & upper(value) ~= '"+pat+"' order by key desc limit 2", "delete where value ~= '"+pat+"'")
+	}
+	add("select * where key ~= value", "select key where value ~= key", "select key, key ~= value + '(' where true", "select count(1) where '(' + key ~= value", "select * where value ~= '(' + value")
 	// order by / group by over dynamically typed columns
 	add("select key, json(value)['a'] as x where true order by x", "select key, json(value)['a'] as x where true order by x desc, key", "select json(value)['a'] as x, count(1) where true group by x",
 		"select key, json(value)['o']['b'] as x where true order by x", "select key, json(value)['l'] as x where true order by key desc limit 2")
